@@ -3,13 +3,14 @@ import collections
 import json
 import os
 import re
+import time
 
 import vlib
 from vlib import coq_bool, coq_list, coq_N
 
 PROP = "C13"
 PROP_FILE = "Properties/C13.v"
-HEADER = "From Verif Require Import Base.Prelude Intention.Model Run.C13.\n"
+HEADER = "From Verif Require Import Base.Prelude.\nFrom Verif Require Import Intention.Model.\nFrom Verif Require Import Run.C13.\n"
 
 
 # ------------------------------------------------------------------ Coq printers
@@ -80,6 +81,7 @@ def shard_text(cases):
     body = ";\n  ".join(case_to_coq(nm, c) for c in cases)
     return (HEADER + nm.defs() +
             "Definition cases : list case := [\n  %s\n].\n"
+            "Definition S := Eval vm_compute in scope_count cases.\nPrint S.\n"
             "Definition M := Eval vm_compute in mismatches cases.\nPrint M.\n" % body)
 
 
@@ -103,10 +105,9 @@ def tab_text(t):
             "Print T.\n"
             "(* UpdatePrecedence, computeIntentionPrecedence, IntentionPrecedenceSorter.Less and connect.IntentionMatch,\n"
             "   as tabulated from the Go code of this run, ARE the model's functions on these universes: *)\n"
-            "Lemma prec_tab_eq : prec_tab_ok prec_tab = true. Proof. vm_compute. reflexivity. Qed.\n"
-            "Lemma cprec_tab_eq : cprec_tab_ok cprec_tab = true. Proof. vm_compute. reflexivity. Qed.\n"
-            "Lemma less_tab_eq : less_tab_ok universe less_tab = true. Proof. vm_compute. reflexivity. Qed.\n"
-            "Lemma authz_tab_eq : authz_tab_ok universe authz_tab = true. Proof. vm_compute. reflexivity. Qed.\n"
+            "Lemma tab_eq : (prec_tab_ok prec_tab, cprec_tab_ok cprec_tab, less_tab_ok universe less_tab,\n"
+            "                authz_tab_ok universe authz_tab) = (true, true, true, true).\n"
+            "Proof. vm_cast_no_check (eq_refl (true, true, true, true)). Qed.\n"
             % (prec, cprec, u, less, authz))
 
 
@@ -176,27 +177,37 @@ def run(ctx):
         cov.update({"evaluations": 0, "distinct_nontrivial": 0, "rule": "proof stage failed", "samples": []})
         return ctx.finish(cov, assumptions)
 
+    t0 = time.time()
+    vlib.log("C13: proof stage done")
     binp = vlib.go_build("intention")
+    vlib.log("C13: harness built %.1fs" % (time.time() - t0))
     out = os.path.join(ctx.workdir, "cases.jsonl")
     rc, o = vlib.sh([binp, "-seed", str(ctx.seed), "-tier", ctx.tier, "-out", out], timeout=3000)
     if rc != 0:
         raise vlib.BuildError("harness run failed: " + o[-2000:])
     tab, cases = load(out)
+    vlib.log("C13: harness ran, %d cases, %.1fs" % (len(cases), time.time() - t0))
 
-    # ---- finite tabulations: Go function = model function, proved by vm_compute on this run's table
-    tab_ok, tab_bad, tab_raw = run_tab(tab)
-
-    # ---- model vs implementation, inside Coq
+    # ---- finite tabulations (Go function = model function, proved by vm_compute on this run's table),
+    #      concurrently with the model-vs-implementation shards evaluated inside Coq
+    from concurrent.futures import ThreadPoolExecutor
     coq_cases = [c for c in cases if c["to_coq"]]
     per = 300
     shards = [coq_cases[i:i + per] for i in range(0, len(coq_cases), per)]
-    res = vlib.coq_run_shards(PROP, [shard_text(s) for s in shards], jobs=6)
-    mism, shard_fail = [], []
+    with ThreadPoolExecutor(max_workers=1) as ex:
+        tab_future = ex.submit(run_tab, tab)
+        res = vlib.coq_run_shards(PROP, [shard_text(s) for s in shards], jobs=6)
+        tab_ok, tab_bad, tab_raw = tab_future.result()
+    vlib.log("C13: tabulation lemmas %s %.1fs" % (tab_ok, time.time() - t0))
+    mism, shard_fail, in_scope = [], [], 0
     for s, (okk, idx, raw) in zip(shards, res):
         if not okk:
             shard_fail.append(raw)
             continue
         mism += [s[i] for i in idx]
+        m = re.search(r"S\s*=\s*(\d+)%N", raw)
+        in_scope += int(m.group(1)) if m else 0
+    vlib.log("C13: coq shards done %.1fs" % (time.time() - t0))
 
     # ---- direct oracle on the implementation's observations
     new_fail, known = classify(ctx, cases)
@@ -258,6 +269,8 @@ def run(ctx):
                 "every case (also those not sent to Coq) goes through the direct oracle under all four (default, allow-permissions) combinations",
         "traces_validated_against_impl": len(coq_cases),
         "model_mismatches": len(mism),
+        "cases_meeting_theorem_hypotheses": in_scope,
+        "cases_meeting_theorem_hypotheses_rule": "evaluated in Coq by Run.C13.in_scope: final table/store satisfies legacy_okb/store_okb and no two stored or queried names differ only in case (hypotheses of C13_most_specific, C13_paths_agree, C13_sorted_*)",
         "tabulations": {"UpdatePrecedence rows": len(tab["prec"]), "computeIntentionPrecedence rows": len(tab["cprec"]),
                         "Less pairs": len(tab["u"]) ** 2, "IntentionMatch rows": len(tab["authz"]) * len(tab["u"]),
                         "all_equal_to_model": tab_ok},
